@@ -39,7 +39,8 @@ def run_replay(unit_harness, unit_file, inputs, workdir=None, timeout=1200):
             f"    crate::verif_support::kani::load(vec![{vals}]);\n"
             f"    {fn}();\n"
             "}\n")
-        overlay.build(workdir, havoc=False, with_contracts=True, extra={unit_file: test})
+        overlay.build(workdir, havoc=False, with_contracts=True, extra={unit_file: test},
+                      only_files=overlay.harness_closure({unit_file}))
         cmd = ["cargo", "test", "--lib", "--offline", "--features", "decode", "--",
                "flacverif_replay", "--nocapture", "--test-threads", "1"]
         try:
